@@ -51,7 +51,9 @@ RClose == /\ IsEvent("rclose")
              Report(l, (IF ev.panic = "" /\ ev.dur <= ClosePrompt THEN {} ELSE {"Inv_C18_CloseReturns"})
                     \cup (IF ev.rebound /\ ev.fds <= ev.basefds THEN {} ELSE {"Inv_C18_NoLeak"})
                     \* ... and not a moment later: when Close has returned every listening address is free
-                    \cup (IF ev.boundatreturn = <<>> THEN {} ELSE {"Inv_C18_NoListenerAtReturn"}))
+                    \cup (IF ev.boundatreturn = <<>> THEN {} ELSE {"Inv_C18_NoListenerAtReturn"})
+                    \* queries that were in flight (their upstream silent) are over soon after Close, not at their time-out
+                    \cup (IF ev.infllate = <<>> THEN {} ELSE {"Inv_C18_InFlightEnds"}))
           /\ UNCHANGED <<ex, closeAt, closeEnd>>
 
 \* the bulk phase that uses up a connection's transaction IDs (its exchanges are not recorded one by one)
